@@ -492,4 +492,24 @@ func init() {
 		Old:    "\tassignTypesToProcessProviders(processes)\n\n\t// Start with some preliminary check on the labelled types",
 		New:    "\tassignTypesToProcessProviders(processes)\n\t_ = produceFunctionDefinitionsEnvironment(*globalEnv.FunctionDefinitions, types.ProduceLabelledSessionTypeEnvironment(*globalEnv.Types))\n\n\t// Start with some preliminary check on the labelled types",
 		Expect: "unfold-reaching-call"})
+	addFixture(Fixture{Name: "exec-record-built-from-any-form", Rule: "R-ASSERT-JUSTIFIED", File: "parser/parser.y.go",
+		Old:    "\t\t\t\tproc:     incompleteProcess{Body: process.NewCall(gritsDollar[2].strval, []process.Name{})},",
+		New:    "\t\t\t\tproc:     incompleteProcess{Body: gritsDollar[2].form},",
+		Expect: "parser.expandProcesses | assert"})
+	addFixture(Fixture{Name: "keywords-matched-in-lower-case", Rule: "R-KEYWORD-EXACT", File: "parser/scanner.go",
+		Old:    "\tswitch buf.String() {\n\tcase \"send\":",
+		New:    "\tswitch string(bytes.ToLower(buf.Bytes())) {\n\tcase \"send\":",
+		Expect: "(*parser.scanner).scanLabel | keyword:self"})
+	addFixture(Fixture{Name: "watchdog-waits-for-the-first-heartbeat", Rule: "R-WATCHDOG-ARMED", File: "process/runtime.go",
+		Old:    "\tfullTimeout := re.Delay + timeout\n",
+		New:    "\tfullTimeout := re.Delay + timeout\n\t<-re.heartbeat\n",
+		Expect: "HeartbeatReceiver | heartbeat-receive"})
+	addFixture(Fixture{Name: "request-decoded-into-the-connection", Rule: "R-REQUEST-FRESH", File: "webserver/web_server.go",
+		Old:    "func (c *Client) handleRequest(message string) {\n\trequest := RequestMessage{}\n\n\tlog.Println(\"received request:\", string(message))\n\n\terr := json.Unmarshal([]byte(message), &request)",
+		New:    "var lastRequest RequestMessage\n\nfunc (c *Client) handleRequest(message string) {\n\tlog.Println(\"received request:\", string(message))\n\n\terr := json.Unmarshal([]byte(message), &lastRequest)\n\trequest := lastRequest",
+		Expect: "handleRequest | decode-destination"})
+	addFixture(Fixture{Name: "send-type-infers-from-the-continuation-only", Rule: "R-SIBLING-CHOICE", File: "types/modality.go",
+		Old:    "\t\treturn q.Mode\n\t}\n\n\tleftUsedLabel := copyMap(usedLabels)\n\tleftMode := q.Left.inferModality(labelledTypesEnv, leftUsedLabel)\n\trightMode := q.Right.inferModality(labelledTypesEnv, usedLabels)\n\n\tcommonMode := commonMode(leftMode, rightMode)\n\n\t// _, unset = commonMode.(*UnsetMode)\n\t// if !unset {\n\t// \t// If the common mode is defined/set, return it\n\t// \treturn commonMode\n\t// }\n\n\treturn commonMode\n}\n\nfunc (q *ReceiveType)",
+		New:    "\t\treturn q.Mode\n\t}\n\n\tleftUsedLabel := copyMap(usedLabels)\n\tleftMode := q.Right.inferModality(labelledTypesEnv, leftUsedLabel)\n\trightMode := q.Right.inferModality(labelledTypesEnv, usedLabels)\n\n\tcommonMode := commonMode(leftMode, rightMode)\n\n\treturn commonMode\n}\n\nfunc (q *ReceiveType)",
+		Expect: "ReceiveType/SendType | sibling:inferModality"})
 }
